@@ -41,22 +41,23 @@ static std::string sidx_n(std::size_t n, const std::vector<std::string> & a, std
     return "BAD_CASE";
 }
 
-template <std::size_t N, bool BMI>
+// Tc: the coordinate scalar (the storage index of the array beneath stays size_t)
+template <typename Tc, std::size_t N, bool BMI>
 static std::string midx(const std::vector<std::string> & a, std::size_t p)
 {
-    using B = cb::morton<cv::vector_d<std::size_t, N>, cb::array<cv::float1>, BMI>;
+    using B = cb::morton<cv::vector_d<Tc, N>, cb::array<cv::float1>, BMI>;
     typename B::contravariant_input_t::vector_t c;
-    for (std::size_t i = 0; i < N; ++i) c[i] = u64(a[p + i]);
+    for (std::size_t i = 0; i < N; ++i) c[i] = static_cast<Tc>(u64(a[p + i]));
     return std::to_string(static_cast<unsigned long long>(B::calculate_index(c)));
 }
-template <bool BMI>
+template <typename Tc, bool BMI>
 static std::string midx_n(std::size_t n, const std::vector<std::string> & a, std::size_t p)
 {
     switch (n) {
-    case 1: return midx<1, BMI>(a, p);
-    case 2: return midx<2, BMI>(a, p);
-    case 3: return midx<3, BMI>(a, p);
-    case 4: return midx<4, BMI>(a, p);
+    case 1: return midx<Tc, 1, BMI>(a, p);
+    case 2: return midx<Tc, 2, BMI>(a, p);
+    case 3: return midx<Tc, 3, BMI>(a, p);
+    case 4: return midx<Tc, 4, BMI>(a, p);
     }
     return "BAD_CASE";
 }
@@ -215,7 +216,11 @@ int main()
         }
         if (kind == "midx") {
             std::size_t n = u64(a[1]);
-            return a[0] == "b" ? midx_n<true>(n, a, 2) : midx_n<false>(n, a, 2);
+            return a[0] == "b" ? midx_n<std::size_t, true>(n, a, 2) : midx_n<std::size_t, false>(n, a, 2);
+        }
+        if (kind == "midx32") {   // unsigned int coordinates
+            std::size_t n = u64(a[1]);
+            return a[0] == "b" ? midx_n<unsigned int, true>(n, a, 2) : midx_n<unsigned int, false>(n, a, 2);
         }
 #ifndef VH_NO_HILBERT_INDEX
         if (kind == "hidx") return hidx(a);
